@@ -438,7 +438,7 @@ theorem decimal_models_agree (XO : XOracles) (o : NumOpts) (v : PyVal)
     cases hd : XO.decOfStr s with
     | none =>
       have := h (.other "outside-model:decimal-str") (by simp [sxDecimal, xConvDecimal, hd])
-      simp [xOutside] at this
+      exact absurd this (by decide)
     | some r =>
       cases r with
       | none => simp [sxDecimal, xConvDecimal, hd, Typedpy.vDecimal, toDecimal, decValue, decErr]
@@ -446,10 +446,10 @@ theorem decimal_models_agree (XO : XOracles) (o : NumOpts) (v : PyVal)
         simp [sxDecimal, xConvDecimal, hd, Typedpy.vDecimal, toDecimal, decValue, vNumber, PyVal.asNum]
   | list xs =>
     have := h (.other "outside-model:decimal-seq") (by simp [sxDecimal, xConvDecimal])
-    simp [xOutside] at this
+    exact absurd this (by decide)
   | tuple xs =>
     have := h (.other "outside-model:decimal-seq") (by simp [sxDecimal, xConvDecimal])
-    simp [xOutside] at this
+    exact absurd this (by decide)
   | bool b =>
     simp [sxDecimal, xConvDecimal, Typedpy.vDecimal, toDecimal, decValue, vNumber, PyVal.asNum]
   | int i =>
